@@ -50,6 +50,7 @@ theorem scan_get : (j : J) → KeysDistinct j = true → ∀ pv ∈ scan j, get 
   | .int _, _, pv, h => by simp [scan] at h; subst h; simp [get]
   | .flo _, _, pv, h => by simp [scan] at h; subst h; simp [get]
   | .str _, _, pv, h => by simp [scan] at h; subst h; simp [get]
+  | .time _, _, pv, h => by simp [scan] at h; subst h; simp [get]
 theorem scanL_get : (xs : List J) → KeysDistinctL xs = true → ∀ (base : Nat) (pv : Path × J), pv ∈ scanL base xs →
     ∃ (n : Nat) (p' : Path) (c : J), pv.1 = Step.idx ((base + n : Nat) : Int) :: p' ∧ xs[n]? = some c ∧ get p' c = some pv.2
   | [], _, base, pv, h => by simp [scanL] at h
